@@ -6,7 +6,7 @@
 // return values are nondeterministic within the callee's contract.
 #![allow(dead_code, unused_imports)]
 use super::*;
-use crate::meta::{L1Entry, L2Entry, L2Table, Mapping, RefBlock, RefTableEntry, Table};
+use crate::meta::{L1Entry, L2Entry, L2Table, Mapping, RefBlock, RefTableEntry, Table, TableEntry};
 use std::cell::{Cell, RefCell, RefMut};
 
 pub(crate) const MAX_REC: usize = 8;
@@ -117,6 +117,7 @@ pub(crate) const K_FLUSH_CACHE: u8 = 11; // flush_cache(cache, start key, end ke
 pub(crate) const K_FSYNC: u8 = 12; // call_fsync
 pub(crate) const K_GROW_RT: u8 = 13; // grow_reftable
 pub(crate) const K_ISNEW: u8 = 15; // cluster_is_new(cluster number)
+pub(crate) const K_ADD_SLICE: u8 = 16; // add_rb_slice(rt entry, key, slice_off)
 pub(crate) const K_TRYALLOC: u8 = 14; // try_alloc_from_rb_slice (off,len = granted run; len 0 = None)
 
 const NOREC: Rec = Rec { kind: K_NONE, entry: 0, off: 0, len: 0, buf_start: 0, flags: 0 };
@@ -235,7 +236,17 @@ pub(crate) struct KEnv {
     pub cache_dirty: Cell<bool>,
     pub fail_write: Cell<bool>,
     pub cluster_new: Cell<bool>,
+    pub fail_falloc: Cell<bool>,
+    pub added_rb: RefCell<Option<RefBlock>>,
+    /// a byte of the last written buffer at a nondeterministic index (universally quantified probe)
+    pub write_probe: Cell<u8>,
+    pub write_probe_idx: Cell<usize>,
+    pub cow_src: RefCell<[u8; 1024]>,
+    pub backing_file: Option<KBacking>,
 }
+
+/// stand-in for the boxed backing device
+pub(crate) struct KBacking;
 
 impl KEnv {
     pub fn new(info: Qcow2Info) -> Self {
@@ -258,6 +269,12 @@ impl KEnv {
             cache_dirty: Cell::new(false),
             fail_write: Cell::new(false),
             cluster_new: Cell::new(false),
+            fail_falloc: Cell::new(false),
+            added_rb: RefCell::new(None),
+            write_probe: Cell::new(0),
+            write_probe_idx: Cell::new(0),
+            cow_src: RefCell::new([0; 1024]),
+            backing_file: None,
         }
     }
 
@@ -416,6 +433,12 @@ impl KEnv {
     /// same, with the library's own error type (for call sites that hand the error on verbatim)
     pub fn k_call_write_q<B: KLen + ?Sized>(&self, off: u64, buf: &B) -> Qcow2Result<()> {
         self.rec(Rec { kind: K_BACKEND_WRITE, off, len: buf.klen(), ..NOREC });
+        if buf.klen() > 0 {
+            let i: usize = kani::any();
+            kani::assume(i < buf.klen());
+            self.write_probe.set(buf.kbyte(i));
+            self.write_probe_idx.set(i);
+        }
         if self.fail_write.get() {
             return Err(crate::error::Qcow2Error::from_desc(String::new()));
         }
@@ -424,6 +447,36 @@ impl KEnv {
     pub fn k_call_read_q<B: KLen + ?Sized>(&self, off: u64, buf: &mut B) -> Qcow2Result<usize> {
         self.rec(Rec { kind: K_BACKEND_READ, off, len: buf.klen(), ..NOREC });
         Ok(buf.klen())
+    }
+    /// source cluster content for the copy-on-write shims (decompressed data / backing data)
+    pub fn k_do_read_compressed(&self, _m: Mapping, off_in_cls: usize, buf: &mut crate::helpers::Qcow2IoBuf<u8>) -> KResult<usize> {
+        self.rec(Rec { kind: K_READ, off: off_in_cls as u64, len: buf.len(), ..NOREC });
+        let src = self.cow_src.borrow();
+        let n = buf.len();
+        buf[..].copy_from_slice(&src[..n]);
+        Ok(n)
+    }
+    pub fn k_backing_read(&self, buf: &mut crate::helpers::Qcow2IoBuf<u8>, off: u64) -> KResult<usize> {
+        self.rec(Rec { kind: K_READ, off, len: buf.len(), flags: 1, ..NOREC });
+        let src = self.cow_src.borrow();
+        let n = buf.len();
+        buf[..].copy_from_slice(&src[..n]);
+        Ok(n)
+    }
+    /// the backend's fallocate: fails or succeeds (environment decides)
+    pub fn k_file_fallocate(&self, off: u64, len: usize, flags: u32) -> KResult<()> {
+        self.rec(Rec { kind: K_FALLOC, off, len, flags, ..NOREC });
+        if self.fail_falloc.get() {
+            Err(KErr)
+        } else {
+            Ok(())
+        }
+    }
+    /// add_rb_slice(rt_e, key, slice_off, slice): keeps the slice for inspection
+    pub fn k_add_rb_slice(&self, rt_e: &RefTableEntry, key: usize, slice_off: usize, slice: RefBlock) -> KResult<()> {
+        self.rec(Rec { kind: K_ADD_SLICE, entry: rt_e.into_plain(), off: key as u64, len: slice_off, ..NOREC });
+        *self.added_rb.borrow_mut() = Some(slice);
+        Ok(())
     }
     /// flush_table(t, start, size): a write of `size` bytes at the table's host offset + start
     pub fn k_flush_table<B: Table>(&self, t: &B, start: u32, size: usize) -> KResult<()> {
@@ -449,19 +502,29 @@ impl KEnv {
 /// length of whatever a backend request is handed
 pub(crate) trait KLen {
     fn klen(&self) -> usize;
+    fn kbyte(&self, i: usize) -> u8;
 }
 impl KLen for [u8] {
     fn klen(&self) -> usize {
         self.len()
+    }
+    fn kbyte(&self, i: usize) -> u8 {
+        self[i]
     }
 }
 impl KLen for Vec<u8> {
     fn klen(&self) -> usize {
         self.len()
     }
+    fn kbyte(&self, i: usize) -> u8 {
+        self[i]
+    }
 }
 impl KLen for crate::helpers::Qcow2IoBuf<u8> {
     fn klen(&self) -> usize {
         self.len()
+    }
+    fn kbyte(&self, i: usize) -> u8 {
+        self[i]
     }
 }
